@@ -16,6 +16,17 @@ import xdrrep as R
 from common import hexb
 
 
+SNAN = {"Float32": [0x7F800001, 0xFF9F5EB6, 0x7FBFFFFF], "Float64": [0x7FF0000000000001, 0xFFF4000000000123]}
+
+
+def gen_value(rng, ty):
+    """xdrlib's value generator plus signalling NaNs (quiet bit clear): a conversion through a Python float or
+    another width sets the quiet bit"""
+    if ty in SNAN and rng.random() < 0.12:
+        return rng.choice(SNAN[ty])
+    return X.gen_value(rng, ty)
+
+
 def pack(x):
     if isinstance(x, bytes):
         return "x" + x.hex()
@@ -169,6 +180,43 @@ def check_hyperslab(ctx, rng, ty, shape, vals, label, obj, held, cases):
         cases.append(("xdr-src-enc " + R.arr_sexp(held[idx]), "(ok %s)" % hexb(xdr), {"rep": label, "ce": ce, "obj": case["obj"]}))
 
 
+def check_built(ctx, rng, cases):
+    """`Rep.build` (theorem C05_representation_independent_built): the harness lays the same representation out with
+    numpy — a buffer of `fill` bytes, a view with offset `pre` and C strides of pitch `step * itemsize` — and compares
+    the model's memory with numpy's, then serves the view like every other representation"""
+    ty = rng.choice([t for t in X.TYPES if t != "String"])
+    rank = rng.choice([1, 1, 2, 3])
+    shape = tuple(rng.randint(1, 3) for _ in range(rank))
+    t = ("b", ty, shape, "v", False)
+    vals = X.gen_data(rng, t)
+    c = rng.choice(R.chars_for(ty, vals))
+    order = rng.choice("<>") if c not in "Bb?" else "<"
+    step, pre, fill = rng.choice([1, 1, 2, 3]), rng.choice([0, 0, 1, 5, 8]), rng.choice([0, 1, 0xEE, 0xFF])
+    src = R.logical(ty, shape, vals, c, order)
+    w = src.dtype.itemsize
+    n = int(np.prod(shape))
+    buf = bytearray([fill]) * (pre + n * step * w)
+    strides, acc = [], step * w
+    for d in reversed(shape):
+        strides.insert(0, acc)
+        acc *= d
+    view = np.ndarray(shape, dtype=src.dtype, buffer=buf, offset=pre, strides=tuple(strides))
+    view[...] = src
+    label = "%s%s/built" % (order if c not in "Bb?" else "|", c)
+    fails, held, xdr = judge_obj(ty, shape, vals, view)
+    case = {"rep": label, "ty": ty, "shape": list(shape), "vals": pack(vals), "obj": obj_record(view), "client": False}
+    for what, obs, exp in fails:
+        ctx.oracle_fail(what, case, obs, exp, size=len(json.dumps(case)))
+    ctx.tags["rep:built"] += 1
+    ctx.count(("built", ty, shape, c, order, step, pre, fill, repr(vals)[:120]), True)
+    meta = {"rep": label, "obj": case["obj"]}
+    cases.append(("xdr-src-build %s %d %d %d %d (%s) (%s)" % (c, order == ">", step, pre, fill, " ".join(map(str, shape)),
+                                                             " ".join(map(str, vals))),
+                  "((%s) %d %s)" % (" ".join(map(str, view.strides)), pre, hexb(bytes(buf))), meta))
+    if xdr is not None:
+        cases.append(("xdr-src-enc " + R.arr_sexp(view), "(ok %s)" % hexb(xdr), meta))
+
+
 # ---------------------------------------------------------------------------------------------------
 # outside the domain: what the code does there is stated by negative theorems; the model must agree
 def check_outside(ctx, cases):
@@ -271,7 +319,7 @@ def check_cells(ctx, rng, cases, client=False):
     for _ in range(nrows):
         vr, orow, cr, lr, br = [], [], [], [], []
         for name, ty in cols:
-            v = X.gen_value(rng, ty)
+            v = gen_value(rng, ty)
             label, obj, cell, big = rng.choice(R.cell_forms(rng, ty, v))
             vr.append(v)
             orow.append(obj)
@@ -373,7 +421,7 @@ def check_recarray(ctx, rng, cases, client=False):
     types = [rng.choice(X.TYPES) for _ in range(rng.randint(1, 3))]
     cols = [("c%d" % i, ty) for i, ty in enumerate(types)]
     n = rng.choice([0, 1, 2, 3])
-    vals_rows = [[X.gen_value(rng, ty) for ty in types] for _ in range(n)]
+    vals_rows = [[gen_value(rng, ty) for ty in types] for _ in range(n)]
     arr, layout = build_recarray(rng, cols, vals_rows)
     fails, xdr = judge_recarray(cols, vals_rows, arr, client)
     case = {"recarray": {"client": client, "cols": cols, "vals": pack(vals_rows), "arr": obj_record(arr), "layout": layout,
@@ -405,11 +453,15 @@ def explore(ctx, label, n_random, client=False, every_type=True):
     for _ in range(n_random):
         t = X.gen_base(rng, "v")
         d = X.gen_data(rng, t)
+        if t[1] in SNAN:
+            d = [gen_value(rng, t[1]) if rng.random() < 0.3 else v for v in d] if t[2] else gen_value(rng, t[1])
         check_value(ctx, rng, t[1], t[2], d if t[2] else [d], cases, client, budget=5)
     for _ in range(n_random):
         check_cells(ctx, rng, cases, client)
     for _ in range(n_random):
         check_recarray(ctx, rng, cases, client)
+    for _ in range(n_random // 2):
+        check_built(ctx, rng, cases)
     check_outside(ctx, cases)
     ctx.correspond("encArr / NpArr.data? / encCellsFlat vs responses.dods on the real memory of the source", cases)
 
